@@ -388,6 +388,96 @@ def rw_for_each(text, nth, fired, fname):
     raise Undecided('lost-anchor', 'for_each %d: no such statement in %s' % (nth, fname))
 
 
+def rw_chain_loop(text, nth, ctype, add_method, fired, fname):
+    """R25 (added for unit `acknack`, directive `@@chain_loop k <CollectionType> <insert|push>`): the
+    k-th iterator-adapter chain of the shape
+        SRC.iter().copied() { .take_while(|P| E) | .filter(|P| B) }* .collect()
+    — needed when one of the closures captures `&mut` state, which Verus closures cannot — becomes
+    the block expression
+        { let mut vx_c_k = <CollectionType>::new();
+          for vx_e_k in SRC.iter() { let vx_x_k = *vx_e_k;            // iter().copied()
+            if !({ let P = &vx_x_k; E }) { break; }                     // take_while(|P| E)
+            if ({ let P = &vx_x_k; B }) {                               // filter(|P| B)
+              vx_c_k.<insert|push>(vx_x_k);                             // collect()
+            } }
+          vx_c_k }
+    i.e. the definitions of the lazy adapters: each element is copied, handed by reference to the
+    predicates in chain order (take_while stops the iteration at the first rejected element,
+    filter skips a rejected element) and, if it passes, added to the collection.  The closure
+    bodies E / B are the verbatim source text and stay on their lines; the closure parameters
+    must be single identifiers.  SRC must be a place expression (identifier path).  The new `for`
+    counts as an ordinary loop for @@loop / @@name_for numbering."""
+    src = Src(text)
+    cnt = 0
+    for i in range(src.n()):
+        if not (src.s(i) == '.' and src.s(i + 1) == 'collect' and src.s(i + 2) == '(' and src.s(i + 3) == ')'):
+            continue
+        # walk back over the adapters
+        adapters = []   # (name, open_paren_si, close_paren_si) in reverse order
+        j = i - 1
+        ok = True
+        while True:
+            if src.s(j) != ')':
+                ok = False; break
+            op = src.match[j]
+            nm = src.s(op - 1)
+            if src.s(op - 2) != '.':
+                ok = False; break
+            if nm in ('take_while', 'filter'):
+                adapters.append((nm, op, j)); j = op - 3; continue
+            if nm == 'copied' and op + 1 == j:
+                j = op - 3
+                if not (src.s(j) == ')' and src.s(j - 1) == '(' and src.s(j - 2) == 'iter' and src.s(j - 3) == '.'):
+                    ok = False
+                j = j - 4
+                break
+            ok = False; break
+        if not ok or not adapters:
+            continue
+        cnt += 1
+        if cnt != nth:
+            continue
+        adapters.reverse()
+        # SRC: identifier path ending at j
+        s_end = j
+        while j >= 0 and (src.t(j).kind == 'ident' or src.s(j) == '.'):
+            j -= 1
+        s_start = j + 1
+        srctxt = text[src.t(s_start).pos:src.t(s_end).end]
+        if not re.fullmatch(r'[A-Za-z_][A-Za-z0-9_]*(\s*\.\s*[A-Za-z_][A-Za-z0-9_]*)*', srctxt):
+            raise Undecided('unsupported-construct', 'chain_loop %d of %s: source %r is not a place expression' % (nth, fname, srctxt))
+        srctxt = re.sub(r'\s+', '', srctxt)
+        k = nth
+        ed = Edits(text)
+        prev_end = src.t(s_start).pos          # text position where the pending replacement starts
+        pending = ('{ let mut vx_c_%d = %s::new(); for vx_e_%d in %s.iter() { let vx_x_%d = *vx_e_%d; '
+                   % (k, ctype, k, srctxt, k, k))
+        closers = ''
+        for (nm, op, cp) in adapters:
+            if not (src.s(op + 1) == '|' and src.t(op + 2).kind == 'ident' and src.s(op + 3) == '|'):
+                raise Undecided('unsupported-construct', 'chain_loop %d of %s: %s closure parameter is not a single identifier' % (nth, fname, nm))
+            p = src.s(op + 2)
+            body_a = src.t(op + 4).pos
+            body_b = src.t(cp - 1).end
+            if nm == 'take_while':
+                head = pending + 'if !({ let %s = &vx_x_%d; ' % (p, k)
+                pending = ' }) { break; } '
+            else:
+                head = pending + 'if ({ let %s = &vx_x_%d; ' % (p, k)
+                pending = ' }) { '
+                closers += '} '
+            ed.replace(prev_end, body_a, head + keep_newlines(text[prev_end:body_a]))
+            prev_end = body_b
+        tail_b = src.t(i + 3).end
+        ed.replace(prev_end, tail_b, pending + 'vx_c_%d.%s(vx_x_%d); %s} vx_c_%d }' % (k, add_method, k, closers, k)
+                   + keep_newlines(text[prev_end:tail_b]))
+        fired.append(('R25', src.line_of(src.t(s_start).pos),
+                      'adapter chain %s.iter().copied().%s.collect() -> explicit loop into %s (vx_c_%d)'
+                      % (srctxt, '.'.join(a[0] + '(..)' for a in adapters), ctype, k)))
+        return ed.apply()
+    raise Undecided('lost-anchor', 'chain_loop %d: no such adapter chain in %s' % (nth, fname))
+
+
 def rw_match_map(text, nth, fired, fname):
     """R17b: the nth expression `EXPR.map(|PAT| BODY)` whose closure captures `&mut` state (value
     used) becomes `match EXPR { Some(PAT) => Some(BODY), None => None }` — the definition of
@@ -820,6 +910,13 @@ def splice_function(ft, directives, security=False):
     for d in directives:
         if d.kind == 'for_each':
             text = rw_for_each(text, int(d.arg.split()[0]) if d.arg.strip() else 1, fired, ft.name)
+    for d in directives:
+        if d.kind == 'chain_loop':
+            # R25: `@@chain_loop k <CollectionType> <insert|push>`
+            ca = d.arg.split()
+            if len(ca) != 3 or ca[2] not in ('insert', 'push'):
+                raise Undecided('unsupported-construct', 'chain_loop needs: k <CollectionType> <insert|push>')
+            text = rw_chain_loop(text, int(ca[0]), ca[1], ca[2], fired, ft.name)
     if any(d.kind == 'mut_self' for d in directives):
         text = rw_mut_self(text, fired, ft.name)
     if text.count('\n') != ft.orig.count('\n'):
@@ -1673,6 +1770,7 @@ def build_unit(verif_root, repo, unit, security=None):
     out_lines = []
     record = []
     unit_security = [bool(security)]
+    keep_extra = {}
 
     def process(path, depth=0):
         if depth > 8:
@@ -1693,6 +1791,14 @@ def build_unit(verif_root, repo, unit, security=None):
                 continue
             if st.startswith('@@security'):
                 unit_security[0] = st.split()[1] in ('on', 'true', '1')
+                i += 1
+                continue
+            if st.startswith('@@keep_extra '):
+                # (added for unit `acknack`) `@@keep_extra <Struct> keep=f1,f2 [opaque=f:T;g:U]`: a later
+                # `@@extract struct .. <Struct> keep=..` (e.g. inside a shared part) keeps these fields
+                # too — R9 unchanged, only the unit-specific choice of kept fields is widened
+                pos_k, kv_k = parse_kv(st[len('@@keep_extra '):])
+                keep_extra[pos_k[0]] = kv_k
                 i += 1
                 continue
             if st.startswith('@@extract '):
@@ -1783,6 +1889,12 @@ def build_unit(verif_root, repo, unit, security=None):
                     continue
                 elif kind in ('struct', 'enum'):
                     rel, name = pos[1], pos[2]
+                    if name in keep_extra and 'keep' in kv:
+                        xk = keep_extra[name]
+                        if xk.get('keep'):
+                            kv['keep'] = kv['keep'] + ',' + xk['keep']
+                        if xk.get('opaque'):
+                            kv['opaque'] = (kv['opaque'] + ';' if kv.get('opaque') else '') + xk['opaque']
                     lines = extract_type(repo, rel, kind, name, kv, unit_security[0], record)
                     out_lines.extend(lines)
                     i += 1
